@@ -3,7 +3,7 @@
    index-stack re-creation of equivalences).  Proofs: CloneProofs.v.  `all_fixed` = the code with fixes/C11-*.diff;
    `pinned` = the tree before them; `original` = additionally before 84a9d17 (Reset order). *)
 From Coq Require Import List String ZArith QArith Bool Arith Lia.
-From LC Require Import CloneDefs CloneProofs CloneEqualsProofs.
+From LC Require Import CloneDefs CloneProofs CloneEqualsProofs CloneEqualsModelProofs.
 Import ListNotations.
 Local Open Scope string_scope.
 Local Open Scope nat_scope.
@@ -366,3 +366,65 @@ Proof.
   - vm_compute. reflexivity.
 Qed.
 Print Assumptions C11_clone_equals_original_example.
+
+(* ---- models (CloneEqualsModelProofs.v).  units_links_consistentb num m: for every variable record of the model
+   (component variables and variables held by resets) that holds a Units object u, the model's FIRST units named
+   u_name u -- if there is one -- has the same value (abs) as u.  This is exactly what fixComponentUnits needs: it
+   replaces u by that units.  Under it abs (clone m) = abs m, hence equals. *)
+Theorem C11_clone_model_equals_original : forall (num : string -> QArith_base.Q) neq fl ext n m m' n',
+  EqualsSpec.neq_laws neq -> wfd_model num m -> units_links_consistentb num m = true ->
+  clone_model all_fixed ext n m = Some (m', n') ->
+  EqualsDefs.eq_entity neq fl (EqualsDefs.EModel (abs_model num m')) (EqualsDefs.EModel (abs_model num m)) = true.
+Proof. exact CloneEqualsModelProofs.clone_model_equals_original. Qed.
+Print Assumptions C11_clone_model_equals_original.
+
+Theorem C11_clone_model_abs : forall (num : string -> QArith_base.Q) ext n m m' n',
+  wfd_model num m -> units_links_consistentb num m = true -> clone_model all_fixed ext n m = Some (m', n') ->
+  abs_model num m' = abs_model num m.
+Proof. exact CloneEqualsModelProofs.clone_model_abs. Qed.
+Print Assumptions C11_clone_model_abs.
+
+Definition wu1 : units := {| u_oid := 1; u_parent := Some 0; u_id := ""; u_name := "u"; u_imp := None; u_impref := "";
+                             u_defs := [{| ud_ref := "metre"; ud_prefix := ""; ud_exp := "1"; ud_mult := "1"; ud_id := "" |}] |}.
+Definition wbare : units := {| u_oid := 4; u_parent := None; u_id := ""; u_name := "u"; u_imp := None; u_impref := ""; u_defs := [] |}.
+Definition wvar (u : units) : variable := {| v_oid := 3; v_parent := Some 2; v_id := ""; v_name := "x"; v_init := ""; v_iface := "";
+                                             v_units := Some u; v_eqs := [] |}.
+Definition wmodel (u : units) : model := {| m_oid := 0; m_id := ""; m_name := "m"; m_encid := ""; m_units := [wu1];
+                                            m_comps := [Comp 2 (Some 0) "" "a" "" "" None "" [wvar u] [] []] |}.
+
+(* non-vacuity: the variable is linked to the model's units *)
+Example C11_clone_model_equals_original_example :
+  wfd_model (fun _ => 1%Q) (wmodel wu1) /\ units_links_consistentb (fun _ => 1%Q) (wmodel wu1) = true /\
+  exists m' n', clone_model all_fixed no_ext 10 (wmodel wu1) = Some (m', n') /\
+    EqualsDefs.equals_now (EqualsDefs.EModel (abs_model (fun _ => 1%Q) m')) (EqualsDefs.EModel (abs_model (fun _ => 1%Q) (wmodel wu1))) = true.
+Proof.
+  split; [|split].
+  - split; [intros i j []|]. split.
+    + constructor; [|constructor]. constructor; [reflexivity | constructor].
+    + constructor; [|constructor]. constructor; [|constructor]. split; [|constructor].
+      constructor; [|constructor]. intros u Hu. injection Hu as <-. constructor; [reflexivity | constructor].
+  - vm_compute. reflexivity.
+  - destruct (clone_model all_fixed no_ext 10 (wmodel wu1)) as [[m' n']|] eqn:E; [|vm_compute in E; discriminate].
+    exists m', n'. split; [reflexivity|]. vm_compute in E. injection E as <- _. vm_compute. reflexivity.
+Qed.
+Print Assumptions C11_clone_model_equals_original_example.
+
+(* the premise cannot be dropped: the variable holds the bare Units object made by setUnits("u") while the model's units
+   u has a unit child (known finding C11-equals-relinked-units): the premise is false, the clone is re-linked, and
+   C10's equals answers false in both directions -- as the library does *)
+Theorem C11_clone_model_equals_refuted : exists ext n m m' n',
+  wfd_model (fun _ => 1%Q) m /\ units_links_consistentb (fun _ => 1%Q) m = false /\
+  clone_model all_fixed ext n m = Some (m', n') /\
+  EqualsDefs.equals_now (EqualsDefs.EModel (abs_model (fun _ => 1%Q) m')) (EqualsDefs.EModel (abs_model (fun _ => 1%Q) m)) = false /\
+  EqualsDefs.equals_now (EqualsDefs.EModel (abs_model (fun _ => 1%Q) m)) (EqualsDefs.EModel (abs_model (fun _ => 1%Q) m')) = false.
+Proof.
+  exists no_ext, 10, (wmodel wbare).
+  destruct (clone_model all_fixed no_ext 10 (wmodel wbare)) as [[m' n']|] eqn:E; [|vm_compute in E; discriminate].
+  exists m', n'. split.
+  { split; [intros i j []|]. split.
+    - constructor; [|constructor]. constructor; [reflexivity | constructor].
+    - constructor; [|constructor]. constructor; [|constructor]. split; [|constructor].
+      constructor; [|constructor]. intros u Hu. injection Hu as <-. constructor. }
+  split; [vm_compute; reflexivity|]. split; [reflexivity|]. vm_compute in E. injection E as <- _. split; vm_compute; reflexivity.
+Qed.
+Print Assumptions C11_clone_model_equals_refuted.
